@@ -812,6 +812,11 @@ class J1939_22:
         pgn = ParameterGroupNumber()
         pgn.from_message_id(mid)
 
+        if pgn.is_pdu2_format:
+            # direct broadcast (the PDU specific field is a group extension, not an address)
+            self.__notify_subscribers(mid.priority, pgn.value, mid.source_address, ParameterGroupNumber.Address.GLOBAL, timestamp, data)
+            return
+
         # peer to peer
         # pdu_specific is destination Address
         pgn_value = pgn.value & 0x1FF00
@@ -845,9 +850,6 @@ class J1939_22:
             logger.info('j1939-21 transport protocol cm not allowed in j1939-22 network')
         elif pgn_value == ParameterGroupNumber.PGN.DATATRANSFER:
             logger.info('j1939-21 transport protocol dt not allowed in j1939-22 network')
-        elif pgn.is_pdu2_format:
-            # direct broadcast
-            self.__notify_subscribers(mid.priority, pgn.value, mid.source_address, ParameterGroupNumber.Address.GLOBAL, timestamp, data)
         else:
             self.__notify_subscribers(mid.priority, pgn_value, mid.source_address, dest_address, timestamp, data)
 
